@@ -560,7 +560,8 @@ func c11transient(rep *vh.Report, seed uint64, idx int) {
 		all[i] = i
 	}
 	n.writeFlow(rep, r, fam, 0, 5+r.Intn(20), all, -1, false)
-	werrs := []error{errWrite, os.ErrDeadlineExceeded, syscall.EPIPE, io.ErrShortWrite, &net.OpError{Op: "write", Net: "tcp", Err: os.ErrDeadlineExceeded}}
+	werrs := []error{errWrite, os.ErrDeadlineExceeded, syscall.EPIPE, io.ErrShortWrite, &net.OpError{Op: "write", Net: "tcp", Err: os.ErrDeadlineExceeded},
+		&net.OpError{Op: "write", Net: "udp", Err: os.NewSyscallError("sendto", syscall.ECONNREFUSED)}, &net.OpError{Op: "write", Net: "udp", Err: syscall.ENOBUFS}}
 	werr := werrs[idx%len(werrs)]
 	n.trs[victim].FailWriteAt(n.trs[victim].WriteCalls()+1, werr, false)
 	_ = n.node.WriteMessageAll(&MessageVfUid{Uid: uint64(fam)<<56 | 999}) // the item that meets the failure
